@@ -11,6 +11,7 @@ package xform
 import (
 	"errors"
 	"fmt"
+	"math"
 	"sort"
 	"strconv"
 	"strings"
@@ -88,7 +89,7 @@ func (S) Info() scen.Info {
 			"reference model":      "abstract tree with expanded links + reference updater (replace / insert / delete / append / create-parents / transparent link crossing)",
 		},
 		QuickUnits: 24000, ThoroughUnits: 3000000, QuickSecs: 40, ThoroughSecs: 1200,
-		ProbeKeys: []string{"probe.below_link", "probe.below_two_links", "probe.delete_map", "probe.insert_key", "probe.append", "probe.create_parents", "probe.identity", "probe.expected_error", "probe.typed_transform", "probe.walk_transform", "probe.walk_transform_selector_matched", "probe.int_backed_segment", "probe.fault_made_transform_fail", "probe.fault_survived", "probe.history_ge_3"},
+		ProbeKeys: []string{"probe.below_link", "probe.below_two_links", "probe.delete_map", "probe.insert_key", "probe.append", "probe.create_parents", "probe.identity", "probe.expected_error", "probe.typed_transform", "probe.selector_reused", "probe.float_zero_sign_flipped_below_link", "probe.walk_transform", "probe.walk_transform_selector_matched", "probe.int_backed_segment", "probe.fault_made_transform_fail", "probe.fault_survived", "probe.history_ge_3"},
 		EventsKey: "events",
 	}
 }
@@ -375,6 +376,7 @@ type pinfo struct {
 	segs  []string
 	links int
 	k     model.Kind
+	zero  bool // a float +0.0
 }
 
 func allPaths(e *model.V, pre []string, links int, out *[]pinfo) {
@@ -384,7 +386,7 @@ func allPaths(e *model.V, pre []string, links int, out *[]pinfo) {
 	if e.K == model.Link {
 		if len(e.Vals) == 1 {
 			// the link node itself is addressable; its content is reached by the same path
-			*out = append(*out, pinfo{append([]string(nil), pre...), links, model.Link})
+			*out = append(*out, pinfo{append([]string(nil), pre...), links, model.Link, false})
 			inner := e.Vals[0]
 			switch inner.K {
 			case model.Map:
@@ -397,11 +399,11 @@ func allPaths(e *model.V, pre []string, links int, out *[]pinfo) {
 				}
 			}
 		} else {
-			*out = append(*out, pinfo{append([]string(nil), pre...), links, model.Link})
+			*out = append(*out, pinfo{append([]string(nil), pre...), links, model.Link, false})
 		}
 		return
 	}
-	*out = append(*out, pinfo{append([]string(nil), pre...), links, e.K})
+	*out = append(*out, pinfo{append([]string(nil), pre...), links, e.K, e.K == model.Float && math.Float64bits(e.F) == 0})
 	switch e.K {
 	case model.Map:
 		for i, k := range e.Keys {
@@ -489,6 +491,9 @@ func (S) RunTape(t *sim.Tape, st *sim.Stats, keepLog bool) *sim.Outcome {
 		roots   []datamodel.Node
 		steps   int
 		typed   bool
+		noJSON  bool                // no dag-json block in the graph (dag-json cannot carry a float zero's sign: C04's matter)
+		sels    []selector.Selector // compiled selectors of earlier steps, re-used later (a compiled selector is immutable)
+		selDesc []string
 	}
 	cls := make([]*client, ncl)
 	for c := range cls {
@@ -528,7 +533,12 @@ func (S) RunTape(t *sim.Tape, st *sim.Stats, keepLog bool) *sim.Outcome {
 		if err != nil {
 			panic("harness: cannot expand generated graph: " + err.Error())
 		}
-		cls[c] = &client{root: g.RootNode, exp: e, steps: 3 + t.Choice(6, "nsteps")}
+		cls[c] = &client{root: g.RootNode, exp: e, steps: 3 + t.Choice(6, "nsteps"), noJSON: true}
+		for _, lb := range g.Links {
+			if lb != "" && gen.LinkFromBin(lb).(cidlink.Link).Prefix().Codec == 0x0129 {
+				cls[c].noJSON = false
+			}
+		}
 		s.Log.Add(fmt.Sprintf("CLIENT %d root=%s", c, strip(e)))
 	}
 	var hist []string
@@ -544,10 +554,15 @@ func (S) RunTape(t *sim.Tape, st *sim.Stats, keepLog bool) *sim.Outcome {
 				// ---- choose a transform against the current model ----
 				var ps []pinfo
 				allPaths(cl.exp, nil, 0, &ps)
-				kind := []int{0, 0, 0, 1, 2, 3, 4, 5, 6, 7, 8, 9, 9}[t.Choice(13, "x.kind")]
+				kind := []int{0, 0, 0, 1, 2, 3, 4, 5, 6, 7, 8, 9, 9, 9, 9}[t.Choice(15, "x.kind")]
 				var segs []string
 				act := action{}
 				repl := func() *model.V {
+					if cl.noJSON && t.Pct(8, "x.negzero") {
+						// a replacement that differs from a float zero only in its sign (and from nothing else at all)
+						st.Inc("probe.negative_zero_replacement")
+						return model.FloatV(math.Copysign(0, -1))
+					}
 					b := 5
 					v := gen.Value(t, gen.DagJson, nil, &b, 1) // inside both block codecs' domains
 					return v
@@ -609,6 +624,16 @@ func (S) RunTape(t *sim.Tape, st *sim.Stats, keepLog bool) *sim.Outcome {
 					segs = p.segs
 					act.kind = kind
 					act.repl = repl()
+					if kind == 0 && cl.noJSON && t.Bool("x.flipzero") {
+						// if some float zero exists, flip exactly its sign (the smallest possible change)
+						if z, zf := pick(func(p pinfo) bool { return len(p.segs) > 0 && p.k == model.Float && p.zero }); zf {
+							segs, act.repl = z.segs, model.FloatV(math.Copysign(0, -1))
+							st.Inc("probe.float_zero_sign_flipped")
+							if z.links > 0 {
+								st.Inc("probe.float_zero_sign_flipped_below_link")
+							}
+						}
+					}
 				case 1: // delete an existing map entry
 					p, found := pick(func(p pinfo) bool { return len(p.segs) > 0 && parentKind(p) == model.Map })
 					ok = found
@@ -710,6 +735,15 @@ func (S) RunTape(t *sim.Tape, st *sim.Stats, keepLog bool) *sim.Outcome {
 					ssb := builder.NewSelectorSpecBuilder(basicnode.Prototype.Any)
 					var sel selector.Selector
 					selDesc := ""
+					if len(cl.sels) > 0 && t.Bool("x.reuse_selector") {
+						k := t.Choice(len(cl.sels), "x.which_selector")
+						sel, selDesc = cl.sels[k], cl.selDesc[k]+" (re-used)"
+						st.Inc("probe.selector_reused")
+					}
+					gen.FieldHints = nil
+					if cl.exp.K == model.Map {
+						gen.FieldHints = cl.exp.Keys
+					}
 					for try := 0; try < 4 && sel == nil; try++ {
 						spec := gen.Selector(t, ssb, 0, false, true)
 						if cs, e := spec.Selector(); e == nil {
@@ -721,6 +755,9 @@ func (S) RunTape(t *sim.Tape, st *sim.Stats, keepLog bool) *sim.Outcome {
 					}
 					if sel == nil {
 						continue
+					}
+					if !strings.HasSuffix(selDesc, "(re-used)") && len(cl.sels) < 4 {
+						cl.sels, cl.selDesc = append(cl.sels, sel), append(cl.selDesc, selDesc)
 					}
 					var matched [][]string
 					wpan := safe(func() {
